@@ -260,7 +260,37 @@ Fixpoint peep_loop (tg : list nat) (codes : list instr) (n : nat) : list instr :
   | S i => peep_loop tg (peep_at tg codes i) i
   end.
 
-Definition peephole (codes : list instr) : list instr :=
+Definition peephole_arr (codes : list instr) : list instr :=
   peep_loop (jump_targets codes) codes (length codes).
+
+(* the same pass as a right fold over the instruction list (the Go loop runs i from len-1 down to 0: when
+   instruction i is processed, the instructions after it are final, those before it untouched).  This is the
+   version the theorems are about; Run.v checks on every sampled program that both versions coincide. *)
+Fixpoint peepR (tg : list nat) (call : list instr) (i : nat) (l : list instr) : list instr :=
+  match l with
+  | [] => []
+  | x :: r =>
+      let r' := peepR tg call (S i) r in
+      let look j := if S i <=? j then nth_error r' (j - S i)
+                    else if j =? i then Some x else nth_error call j in
+      match x with
+      | Ipush _ | Idup | Iload _ =>
+          if is_target tg (S i) then x :: r'
+          else match r' with
+               | Ipop :: r'' => Inop :: Inop :: r''
+               | Iconst k :: r'' => Inop :: Ipush k :: r''
+               | _ => x :: r'
+               end
+      | Ijump j =>
+          if j =? S i then Inop :: r'
+          else match look j with Some (Ijump j') => Ijump j' :: r' | _ => x :: r' end
+      | Ijumpifnot j =>
+          if j =? S i then Inop :: r'
+          else match look j with Some (Ijump j') => Ijumpifnot j' :: r' | _ => x :: r' end
+      | _ => x :: r'
+      end
+  end.
+
+Definition peephole (c : list instr) : list instr := peepR (jump_targets c) c 0 c.
 
 Definition compile (q : query) : option (list instr) := option_map peephole (compile_raw q).
